@@ -12,6 +12,7 @@ GROUPS_IOS = {
     "G2": ["10.0.0.0 0.0.1.255"],
     "G3": ["host 10.0.0.1"],
     "GNC": ["10.0.0.0 0.0.1.3"],
+    "GD": ["10.1.0.0 0.0.0.255"],
     "EMPTY": [],
 }
 GROUPS_NXOS = {
@@ -19,6 +20,7 @@ GROUPS_NXOS = {
     "G2": ["10.0.0.0/23"],
     "G3": ["10.0.0.1/32"],
     "GNC": ["10.0.0.0 0.0.1.3"],
+    "GD": ["10.1.0.0/24"],
     "EMPTY": [],
 }
 
